@@ -154,6 +154,24 @@ func runC13(c *core.Case) {
 		}
 		return map[string]any{"tiles(h/x/y/vz/z)": desc, "zBaseExponent": E, "zBaseOffset": O, "outputVZoom": V, "result": gs, "result_len": len(got), "error": fmt.Sprint(err), "observed": obs}
 	}
+	if r.P(0.15) && !mustErr { // (tiles with non-existent keys are outside the cost bound computed above)
+		// object reuse: the same TileXYZ objects are first converted with other vertical zoom/key values, then set to
+		// the judged values through the setters; the judged conversion must depend on the current field values only
+		// (the other zoom is one level away, so the pre-conversion's ranges are at most twice as long as the judged ones)
+		for i, t := range tiles {
+			pvz := clampI(t.vz+[]int64{-1, 1}[r.Intn(2)], 0, 35)
+			objs[i].SetVZoom(pvz)
+		}
+		_, _ = transform.ConvertTileXYZsToExtendedSpatialIDs(objs, E, O, V)
+		c.Call()
+		for i, t := range tiles {
+			objs[i].SetVZoom(t.vz)
+			if r.P(0.3) {
+				objs[i].SetZ(t.z)
+			}
+		}
+		c.Tag("reused-tile-objects")
+	}
 	got, err = transform.ConvertTileXYZsToExtendedSpatialIDs(objs, E, O, V)
 	c.Call()
 	for i, t := range tiles { // inputs untouched
